@@ -228,3 +228,40 @@ def c07_lexical(repo, tier):
     obs.append(ob("lexical/queue-pop-only-in-the-three-consumers", sorted(set(popsites)) == want, "", {"pop_sites": popsites}))
     return {"name": "lexical", "backend": "ast-dominance", "obligations": obs, "functions": {},
             "samples": [{"obligation": o["name"], "verdict": o["status"]} for o in obs[:2]]}
+
+
+def c20_lexical(repo, tier):
+    """every access to the shared handler lists / busy counter that the property relies on is under `with self._lock`"""
+    tree, src, path = parse(repo, "driver/udp_socket.py")
+    obs = []
+    funcs = {}
+    shared = {"_send_handlers", "_receive_handlers", "_busy_count"}
+    for fn in ("add_receive_handler", "remove_receive_handler", "queue_send", "_process_send_requests", "dispatch_recevied_data", "_cleanup_handlers"):
+        f = find_func(tree, "GeckoUdpSocket." + fn)
+        if f is None:
+            obs.append({"name": "lexical-lock/GeckoUdpSocket.%s-exists" % fn, "status": "unknown", "detail": "function not found"})
+            continue
+        funcs["geckolib.driver.udp_socket:GeckoUdpSocket." + fn] = seg_hash(src, f)
+        bad = accesses_under_lock(f, shared, "self._lock")
+        # log arguments are dropped by the extraction and never executed for their value
+        bad = [b for b in bad if not _inside_log_call(f, b[0])]
+        obs.append(ob("lexical-lock/GeckoUdpSocket.%s:shared-lists-under-the-lock" % fn, not bad, "", {"unlocked": bad}))
+    bl = find_func(tree, "GeckoUdpSocket._BusyLock")
+    if bl is not None:
+        for m in bl.body:
+            if isinstance(m, ast.FunctionDef) and m.name in ("__enter__", "__exit__"):
+                bad = []
+                for n, withs in nodes_with_context(m):
+                    if isinstance(n, ast.Attribute) and n.attr == "_busy_count" and not any(with_holds(w, "self._socket._lock") for w in withs):
+                        bad.append(n.lineno)
+                obs.append(ob("lexical-lock/_BusyLock.%s:busy-counter-under-the-lock" % m.name, not bad, "", {"unlocked": bad}))
+    return {"name": "lexical", "backend": "ast-dominance", "obligations": obs, "functions": funcs,
+            "samples": [{"obligation": o["name"], "verdict": o["status"]} for o in obs[:2]]}
+
+
+def _inside_log_call(func, lineno):
+    for n in ast.walk(func):
+        if isinstance(n, ast.Call) and isinstance(n.func, ast.Attribute) and isinstance(n.func.value, ast.Name) \
+                and n.func.value.id in ("_LOGGER", "logger") and n.lineno <= lineno <= (n.end_lineno or n.lineno):
+            return True
+    return False
